@@ -16,7 +16,7 @@ Q = lambda *a: list(a)
 # thorough-only harness variants (deeper bounds); left out of every quick run
 DEEP = ["vpH_C02_T_churn2", "vpH_C03_T_unreachable_fast", "vpH_C04_T_validate_racing", "vpH_C07_T_leftover_symrand",
         "vpH_C08_T_causes_symrand", "vpH_C09_T_stop_leader_slow", "vpH_C11_T_grace5", "vpH_C12_T_health7",
-        "vpH_C13_T_follower_arb", "vpH_C15_wrapped2"]
+        "vpH_C13_T_follower_arb", "vpH_C15_wrapped2", "vpH_C14_T_watch7", "vpH_C17_T_breaker_seq5", "vpH_C10_T_safety2"]
 
 PROPS = {
     "C16": {
@@ -41,7 +41,7 @@ PROPS["C15"] = {
 }
 PROPS["C17"] = {
     "groups": [{"run": "^vpH_C17_backoff$", "args": ["-solver", "z3-new", "-timeout-ms", "30000"]},
-               {"run": "^vpH_C17_(backoff_conc|breaker_step|T_retry|T_breaker_seq|T_round)$", "args": ["-solver", "z3-new"]}],
+               {"run": "^vpH_C17_(backoff_conc|breaker_step|T_retry|T_breaker_seq|T_breaker_seq5|T_round)$", "args": ["-solver", "z3-new"]}],
     "bounds": {"quick": "CalculateBackoff: InitialBackoff, MaxBackoff in [0, 100 days] (exact int64->float64 conversion; the exact-evaluation harness goes to one year), multiplier in [1, 10^6], jitter in [0,1], attempt any non-negative int (math.Pow uninterpreted: finite in [1,MaxFloat64] or +Inf); float64 = Real with relative rounding error 2^-53 per operation; plus exact evaluation for multipliers {1.1,2} x attempts {0,1,10,33,1100}. RetryWithBackoff: MaxAttempts 0..4 (0 bounded by 6 invocations), every outcome sequence over {nil, permanent, transient}, optional cancellation at a symbolic instant within 2 s, default backoff config. CircuitBreaker: one Call from an arbitrary reachable state (threshold 1..10^6, cooldown and elapsed time up to a year: an inductive step covering histories of any length) plus sequences of 2*threshold+2 calls for threshold 1..3 with symbolic gaps. Acquisition round: one round of 4 failing Creates."},
     "outside": "durations above one year (float->int64 overflow at 2^63 ns); multipliers below 1; negative MaxAttempts; RetryWithBackoff with a CircuitBreaker attached",
     "assumptions": ["math.Pow(x,y): y=0 or x=1 gives 1, y=1 gives x, result >= x for x,y >= 1, finite results within [1, MaxFloat64]; the +Inf branch is explored for base >= 2, exponent >= 1024",
@@ -216,3 +216,14 @@ _ADD = {
 for _k, _v in _ADD.items():
     if _k in PROPS and "bounds" in PROPS[_k] and "quick" in PROPS[_k]["bounds"]:
         PROPS[_k]["bounds"]["quick"] += _v
+
+_ADD_THOROUGH = {
+    "C10": "as quick plus: the third party writes twice (two symbolic priorities), each write at any store-operation leg of the candidate",
+    "C14": "as quick plus: emitted sequences of up to 7 entries / markers",
+    "C17": "as quick plus: circuit-breaker call sequences for thresholds up to 5 (up to 12 calls with symbolic gaps)",
+    "C13": "as quick plus: a well-formed record of symbolic priority rewritten with arbitrary bytes at any store-operation leg of a takeover-enabled candidate",
+    "C02": "as quick plus: the environment performs two protocol-conforming actions (the second a symbolic delay after the first) around a StopWithContext{DeleteKey} placed by the explorer",
+}
+for _k, _v in _ADD_THOROUGH.items():
+    if _k in PROPS and "bounds" in PROPS[_k] and not PROPS[_k]["bounds"].get("thorough"):
+        PROPS[_k]["bounds"]["thorough"] = _v
